@@ -135,5 +135,65 @@ pub fn run(ctx: &Ctx, st: &mut Stats) {
             st.sample(|| json!(c));
         }
     }
+    // (d) RA-wrap seeking (see C13): GMT offsets on a fine grid around the one where the Sun's right ascension at
+    //     local midnight crosses 360 -> 0, on the March dates where that happens
+    let nseek = ctx.quota(160, 8_000);
+    let mut rs = Rng::new(ctx.seed, 104, ctx.shard);
+    let (mut done, mut tries) = (0u64, 0u64);
+    while done < nseek && tries < nseek * 40 {
+        tries += 1;
+        let date = ymd(rs.int(1600, 2399) as i32, 3, rs.int(18, 23) as u32);
+        let lon = rs.range(-178.0, 178.0);
+        let nom = lon / 15.0;
+        let Some(g0) = o::ra_wrap_gmt(date, (nom - 3.0).max(-12.0), (nom + 3.0).min(12.0)) else { continue };
+        done += 1;
+        let (la, el, method) = (gen::any_lat(&mut rs), gen::any_elev(&mut rs), rs.int(0, 8) as usize);
+        for k in -100..=100 {
+            let g = g0 + k as f64 * 0.004;
+            if !(-12.0..=12.0).contains(&g) {
+                continue;
+            }
+            for dd in -1..=1 {
+                let c = Case { site: Site::new(la, lon, el, g), date: d2s(from_ce(ce(date) + dd)), method, policy: "None".into() };
+                check(ctx, st, &c);
+            }
+        }
+        st.count("ra_wrap_seeks(201 GMT offsets around the wrap, 3 dates each)");
+    }
+    // (c) clock-boundary seeking: bisect the longitude (down to adjacent f64 values) until the reported Dhuhr
+    //     crosses a whole hour / whole minute, and judge both neighbours (conversion carries live exactly there)
+    let nb = ctx.quota(4_000, 200_000);
+    let mut rb = Rng::new(ctx.seed, 103, ctx.shard);
+    for k in 0..nb {
+        let mut site = site_for(&mut rb);
+        site.lon = X(rb.range(-170.0, 170.0));
+        site.gmt = X((site.lon.0 / 15.0).round().clamp(-12.0, 12.0));
+        let mut c = Case { site, date: d2s(rand_date(&mut rb)), method: rb.int(0, 8) as usize, policy: "None".into() };
+        let p = params(&c);
+        let date = s2d(&c.date);
+        let dh = |st: &mut Stats, lon: f64| -> Option<f64> {
+            let mut s2 = site;
+            s2.lon = X(lon);
+            call(st, &p, s2.loc(), date, None).ok().and_then(|r| r[&Prayer::Dhuhr].ok()).map(|t| secs(&t))
+        };
+        let Some(d0) = dh(st, site.lon.0) else { continue };
+        let unit = if k % 2 == 0 { 3600.0 } else { 60.0 };
+        let t = (d0 / unit).floor() * unit; // boundary at or below the current Dhuhr; Dhuhr falls 240 s per degree eastwards
+        let lon1 = site.lon.0 + (d0 - t) / 240.0 + 0.02;
+        if lon1 > 180.0 || t <= 0.0 {
+            continue;
+        }
+        match dh(st, lon1) {
+            Some(d1) if d1 < t => {}
+            _ => continue,
+        }
+        let (a, b) = super::bisect(site.lon.0, lon1, |lon| dh(st, lon).map(|d| d >= t).unwrap_or(true));
+        for lon in [a, b] {
+            c.site.lon = X(lon);
+            check(ctx, st, &c);
+        }
+        st.count(if unit == 3600.0 { "clock_boundary_seeks.whole_hour" } else { "clock_boundary_seeks.whole_minute" });
+        st.nontrivial_key(hash64(&format!("b{:?}{}", c.site, c.date)));
+    }
     st.extra.insert("rule".into(), json!("sweep: every date 1600-01-01..2399-12-31 for each sweep site (distinct by construction); random: distinct (site,date) by hash; every decided Dhuhr is non-trivial (oracle evaluated)"));
 }
